@@ -15,6 +15,9 @@
 //                                    directory on another file system (opt-in, never set by the driver): the target is a file there
 //   content(n, seed, kind): kind 0 any bytes, 1 text with LF/CRLF/CR lines around the 255-byte chunk, 2 one long line,
 //   3 NUL-free bytes (first byte ASCII); n is used as given (generators aim it at 255 / 65536 multiples)
+//   as how mode n seed kind same     File (how 0) / TextFile (how 1) object opened WRITE / APPEND, n bytes written and NOT closed, then the object is
+//                                    assigned File(the same path) (same&1) or File(another existing path): the handle is closed by the assignment;
+//                                    size(), content(), text() through the object and the fresh-object checks must see the target file
 //   so how mode n1 seed1 kind q fl n2 seed2   one File (how 0) / TextFile (how 1) object for writing AND reading: open(mode), write n1 bytes,
 //                                    [flush()], info query q on the OPEN object (0 none, 1 size, 2 lastModified, 3 isFile, 4 isDirectory,
 //                                    5 creationDate, 6 exists), write n2 more bytes, close(); then size(), content(), firstBytes(),
@@ -182,6 +185,48 @@ static void check_lines(const std::string& path, const std::string& model, const
 			if (i + 1 < want.size())
 				VF_CHECK(more, ctx, ": readLine(String&) #", i, " returned false before the last line");
 		}
+	}
+	// (this overload reads byte by byte: bounded to keep the budget)
+	if (model.size() > 40000 || (model.size() > 5000 && model.size() % 4 != 0))
+		return;
+	{
+		// readLine(char newline) with '\n': the same sequence; this overload leaves a CR before the LF in place, the property's
+		// sequence has it removed, so one CR before an LF is accepted either way
+		TextFile f(AS(path), File::READ);
+		size_t i = 0;
+		while (!f.end()) {
+			String l = f.readLine('\n');
+			VF_CHECK(i < want.size(), ctx, ": readLine('\\n') loop produced more than the ", want.size(), " lines of the text; extra line ", vf::show(S(l)));
+			std::string got = S(l);
+			if (i + 1 < want.size() && got.size() == want[i].size() + 1 && got.back() == '\r')
+				got.pop_back();
+			VF_CHECK(got == want[i], ctx, ": readLine('\\n') #", i, " of ", want.size(), ": ", diffmsg(S(l), want[i]));
+			VF_CHECK((int)strlen(*l) == l.length(), ctx, ": readLine('\\n') #", i, " length()/terminator disagree");
+			i++;
+		}
+		VF_CHECK(i == want.size(), ctx, ": readLine('\\n') loop produced ", i, " lines, want ", want.size());
+	}
+	if (model.size() <= 2500) {
+		// another delimiter: the pieces between its occurrences
+		char d = (model.size() % 2) ? '\r' : 'a';
+		std::vector<std::string> pieces;
+		size_t p0 = 0;
+		for (;;) {
+			size_t q = model.find(d, p0);
+			pieces.push_back(model.substr(p0, q == std::string::npos ? std::string::npos : q - p0));
+			if (q == std::string::npos)
+				break;
+			p0 = q + 1;
+		}
+		TextFile f(AS(path), File::READ);
+		size_t i = 0;
+		while (!f.end()) {
+			String l = f.readLine(d);
+			VF_CHECK(i < pieces.size(), ctx, ": readLine(", (int)d, ") loop produced more than the ", pieces.size(), " pieces of the text");
+			VF_CHECK(S(l) == pieces[i], ctx, ": readLine(char ", (int)d, ") #", i, " of ", pieces.size(), ": ", diffmsg(S(l), pieces[i]));
+			i++;
+		}
+		VF_CHECK(i == pieces.size(), ctx, ": readLine(char ", (int)d, ") loop produced ", i, " pieces, want ", pieces.size());
 	}
 }
 
@@ -449,6 +494,50 @@ static void run_history(const vf::Case& c)
 				overlay(h.model, 0, out);
 			h.exists = wrote = true;
 			ctx += vf::str(" open TextFile mode ", mode == 0 ? "WRITE" : mode == 1 ? "APPEND" : "RW", ", ", k, " writes, ", out.size(), " bytes");
+		}
+		else if (o.name == "as") {
+			// an object that has the path open for writing is assigned another File: that closes (and flushes) it; then the
+			// object is read (size first: bounded, no loop that depends on reaching the end of a stream)
+			int how = (int)(o.i(0) & 1), mode = (int)(o.i(1) & 1);
+			bool same = (o.i(5) & 1) != 0;
+			std::string data = how ? text_content(o.i(2), (uint64_t)o.i(3), (int)o.i(4)) : content(o.i(2), (uint64_t)o.i(3), (int)o.i(4));
+			std::string expect = mode == 0 ? data : h.model + data;
+			std::string opath = ref::tmpdir() + "/c17_other.dat", ocontent = content(37 + (o.i(2) < 0 ? 0 : o.i(2)) % 500, (uint64_t)o.i(3) + 5, 1);
+			if (!same)
+				VF_CHECK(ref::spit(opath, ocontent), "harness: cannot write ", opath);
+			const std::string& target = same ? expect : ocontent;
+			ctx += vf::str(how ? " TextFile" : " File", " open for ", mode == 0 ? "WRITE" : "APPEND", ", ", data.size(), " bytes written, then assigned ", how ? "TextFile(" : "File(", same ? "the same path" : "another path",
+			               "), then read through that object");
+			auto readback = [&](File& f, TextFile* t) {
+				long long sz = (long long)target.size();
+				VF_CHECK(f.size() == sz, ctx, ": size() = ", (long long)f.size(), " want ", sz);
+				ByteArray c1 = f.content();
+				VF_CHECK(S(c1) == target, ctx, ": content(): ", diffmsg(S(c1), target));
+				f.close();
+				if (t && target.find('\0') == std::string::npos && !bom_like(target)) {
+					String tx = t->text();
+					VF_CHECK(S(tx) == target, ctx, ": text(): ", diffmsg(S(tx), target));
+					t->close();
+				}
+			};
+			File::OpenMode om = mode == 0 ? File::WRITE : File::APPEND;
+			if (how) {
+				TextFile t(path, om);
+				VF_CHECK(!!t, ctx, ": cannot open");
+				VF_CHECK(t.append(AS(data)), ctx, ": append returned false");
+				t = TextFile(AS(same ? P() : opath));
+				readback(t, &t);
+			}
+			else {
+				File f(path, om);
+				VF_CHECK(!!f, ctx, ": cannot open");
+				VF_CHECK(f.write(data.data(), (int)data.size()) == (int)data.size(), ctx, ": write returned a short count");
+				f = File(AS(same ? P() : opath));
+				readback(f, 0);
+			}
+			unlink(opath.c_str());
+			h.model = expect;
+			h.exists = wrote = true;
 		}
 		else if (o.name == "so") {
 			// one object writes, is queried while open, is closed and then read: ordinary use of a File / TextFile
@@ -811,7 +900,11 @@ static Gen<vf::Op> histop()
 			o.a = {*vf::irange<int>(0, 1), *gen::elementOf(std::vector<int>{0, 1, 1, 1, 2}), *sizegen(false), seed, *vf::irange<int>(0, 3), *gen::elementOf(std::vector<int>{0, 1, 1, 1, 2, 3, 4, 5, 6}),
 			       *vf::irange<int>(0, 1), *sizegen(false), seed + 1};
 		}
-		else if (w < 96) {
+		else if (w < 93) {
+			o.name = "as";
+			o.a = {*vf::irange<int>(0, 1), *vf::irange<int>(0, 1), *sizegen(true), seed, *vf::irange<int>(0, 3), *gen::elementOf(std::vector<int>{1, 1, 1, 0})};
+		}
+		else if (w < 97) {
 			o.name = "cp";
 			o.a = {*vf::irange<int>(0, 7)};
 		}
@@ -860,10 +953,12 @@ static Gen<vf::Case> linesgen()
 			len = *gen::elementOf(std::vector<long long>{252, 253, 254, 255, 256, 257, 506, 507, 508, 509, 510, 511, 512, 761, 762, 763, 1015, 1016, 1017});
 		else if (w < 65)
 			len = *vf::irange<long long>(0, 5);
-		else if (w < 85)
+		else if (w < 80)
 			len = *vf::irange<long long>(0, 300);
+		else if (w < 88)
+			len = *gen::elementOf(std::vector<long long>{998, 999, 1000, 1001, 1002, 1003, 2001, 2002, 2003, 2004, 2005, 2999, 3000});
 		else
-			len = *vf::irange<long long>(0, 2000);
+			len = *vf::irange<long long>(0, 3000);
 		int end = *gen::elementOf(std::vector<int>{0, 0, 0, 1, 1, 1, 2, 3});
 		return vf::Op("ln", {len, end, *vf::irange<int>(0, 3), *vf::irange<long long>(0, 1000000000LL)});
 	});
@@ -1008,6 +1103,22 @@ static void classify_hist(const vf::Case& c)
 				size = o.i(1);
 			exists = true;
 		}
+		else if (o.name == "as") {
+			bool same = (o.i(5) & 1) != 0;
+			st.cls(std::string("hist.assign_while_open_for_write.") + (same ? "same_path" : "other_path"));
+			if (same && o.i(2) > 0) {
+				nt = true;
+				st.cls(o.i(2) >= 4096 ? "hist.assign_while_open_for_write.same_path.>=4096_bytes_pending" : "hist.assign_while_open_for_write.same_path.<4096_bytes_pending");
+			}
+			if ((o.i(1) & 1) && exists) {
+				appended_after_reopen = true;
+				st.cls("hist.append_after_reopen");
+				size += o.i(2);
+			}
+			else
+				size = o.i(2);
+			exists = true;
+		}
 		else if (o.name == "so") {
 			int mode = (int)o.i(1) % 3;
 			if (mode == 2 && !exists)
@@ -1086,6 +1197,16 @@ static void classify_lines(const vf::Case& c)
 		if (q >= p + 1 && t[q - 1] == '\r' && (q - p) % 254 == 0 && q > p)
 			st.cls("lines.CR|LF split across chunks");
 		p = q + 1;
+	}
+	for (const std::string& one : l) {
+		if (one.size() >= 1001) {
+			st.cls("lines.line>=1001(readLine(char) buffer grows)");
+			edge = true;
+		}
+		if (one.size() >= 1000 && one.size() <= 1002)
+			st.cls("lines.line_1000..1002");
+		if (one.size() >= 2002 && one.size() <= 2005)
+			st.cls("lines.line_2002..2005");
 	}
 	st.cls(t.empty() ? "lines.empty_text" : t.back() == '\n' ? "lines.final_newline" : "lines.no_final_newline");
 	if (crlf)
